@@ -18,6 +18,7 @@
 package pqmr
 
 import (
+	"encoding/binary"
 	"fmt"
 	"io"
 	"os"
@@ -289,6 +290,19 @@ func ReadPqmr(fname *string) (*SegmentPQMRResults, error) {
 			break
 		}
 		offset += int64(bsSize)
+
+		// A serialized bitset starts with its length in bits (uint64, big endian) and
+		// UnmarshalBinary allocates that many bits before it reads a single word. The
+		// words of this record hold (bsSize-8)*8 bits, so a larger length means the
+		// file is corrupt; it must not be turned into an allocation.
+		if bsSize >= 8 {
+			numBits := binary.BigEndian.Uint64(bsBlk[:8])
+			if numBits > uint64(bsSize-8)*8 {
+				err = fmt.Errorf("corrupt record: bitset length %v does not fit in %v bytes", numBits, bsSize)
+				log.Errorf("ReadPqmr: fname=%v, blkNum=%v, err=[%v]", *fname, blkNum, err)
+				return nil, err
+			}
+		}
 
 		bs := bitset.New(0)
 		err = bs.UnmarshalBinary(bsBlk[:bsSize])
